@@ -6,7 +6,7 @@ package vm
 
 //@ function bal(b map[machine.AccountAddress]map[machine.Asset]*machine.MonetaryInt, a machine.AccountAddress, x machine.Asset) int = val(b[a][x])
 //@ function tracked(b map[machine.AccountAddress]map[machine.Asset]*machine.MonetaryInt, a machine.AccountAddress, x machine.Asset) bool = has(b, a) && has(b[a], x)
-//@ define wfBal(b map[machine.AccountAddress]map[machine.Asset]*machine.MonetaryInt) bool = forall a machine.AccountAddress :: {has(b, a)} has(b, a) ==> b[a] != nil
+//@ define wfBal(b map[machine.AccountAddress]map[machine.Asset]*machine.MonetaryInt) bool = (forall a machine.AccountAddress :: {has(b, a)} has(b, a) ==> b[a] != nil) && (forall a machine.AccountAddress, x machine.Asset :: {b[a][x]} (has(b, a) && has(b[a], x)) ==> b[a][x] != nil)
 //@ define sameKeys(b map[machine.AccountAddress]map[machine.Asset]*machine.MonetaryInt, c map[machine.AccountAddress]map[machine.Asset]*machine.MonetaryInt) bool = forall a machine.AccountAddress, x machine.Asset :: {tracked(b, a, x)} {tracked(c, a, x)} tracked(b, a, x) == tracked(c, a, x)
 
 //@ func (m *Machine) withdrawAll(account machine.AccountAddress, asset machine.Asset, overdraft *machine.MonetaryInt) (f *machine.Funding, err error)
@@ -117,6 +117,12 @@ package vm
 //@   requires m.P < len(m.Program.Instructions)
 //@   requires m.Program.Instructions[m.P] == program.OP_APUSH ==> m.P + 3 <= len(m.Program.Instructions)
 //@   requires m.Program.Instructions[m.P] == program.OP_BUMP ==> len(m.Stack) > 0 && is(m.Stack[len(m.Stack) - 1], *machine.MonetaryInt) && 0 <= val(m.Stack[len(m.Stack) - 1].(*machine.MonetaryInt)) && val(m.Stack[len(m.Stack) - 1].(*machine.MonetaryInt)) < len(m.Stack) - 1
+//@   requires m.Program.Instructions[m.P] == program.OP_MAKE_ALLOTMENT ==> len(m.Stack) > 0 && is(m.Stack[len(m.Stack) - 1], *machine.MonetaryInt) && 0 <= val(m.Stack[len(m.Stack) - 1].(*machine.MonetaryInt)) && val(m.Stack[len(m.Stack) - 1].(*machine.MonetaryInt)) < len(m.Stack)
+//@   requires m.Program.Instructions[m.P] == program.OP_FUNDING_ASSEMBLE ==> len(m.Stack) > 0 && is(m.Stack[len(m.Stack) - 1], *machine.MonetaryInt) && 0 <= val(m.Stack[len(m.Stack) - 1].(*machine.MonetaryInt)) && val(m.Stack[len(m.Stack) - 1].(*machine.MonetaryInt)) < len(m.Stack)
+//@   requires m.Program.Instructions[m.P] == program.OP_TAKE_ALWAYS ==> len(m.Stack) > 0 && is(m.Stack[len(m.Stack) - 1], machine.Monetary) && val(m.Stack[len(m.Stack) - 1].(machine.Monetary).Amount) >= 0
+//@   requires m.Program.Instructions[m.P] == program.OP_ALLOC ==> len(m.Stack) > 1 && is(m.Stack[len(m.Stack) - 1], machine.Allotment) && posDen(m.Stack[len(m.Stack) - 1].(machine.Allotment)) && ratsum(m.Stack[len(m.Stack) - 1].(machine.Allotment)) == 1
+//@   requires m.Program.Instructions[m.P] == program.OP_ALLOC ==> is(m.Stack[len(m.Stack) - 2], machine.Monetary) && val(m.Stack[len(m.Stack) - 2].(machine.Monetary).Amount) >= 0
+//@   requires m.Program.Instructions[m.P] == program.OP_SAVE ==> len(m.Stack) > 1 && (is(m.Stack[len(m.Stack) - 2], machine.Asset) || (is(m.Stack[len(m.Stack) - 2], machine.Monetary) && val(m.Stack[len(m.Stack) - 2].(machine.Monetary).Amount) >= 0))
 //@   requires wfBal(m.Balances) && wfStack(m.Stack) && m.TxMeta != nil && m.AccountsMeta != nil
 //@   requires forall i int :: {m.Resources[i]} 0 <= i && i < len(m.Resources) ==> wfValue(m.Resources[i]) && !is(m.Resources[i], machine.Funding)
 //@   modifies m
